@@ -1,11 +1,11 @@
-\* quick: ONE object, offsets 0..1, sizes 1/2, 2 values + Top + flagged value; from every preset all histories of <= 2 operations; every one-change variant of every reference result is judged
+\* thorough: one object, offsets 0..2, sizes 1/2, 2 values + pointer value + Top + flagged value; presets; <= 2 operations; variants judged
 CONSTANTS
   NObj = 1
-  OffHi = 1
+  OffHi = 2
   Sizes = {1, 2}
   NVals = 2
   Depth = 2
-  PtrVal = FALSE
+  PtrVal = TRUE
   TopVal = TRUE
   Variants = TRUE
   TwoLists = FALSE
